@@ -9,6 +9,8 @@ For every function of every module under opytimizer/ (visualization and logging 
     string-hash salt), hash(), id(), stdlib random / secrets / uuid / time / datetime / os.environ / os.getpid / os.urandom,
     private NumPy generators (np.random.default_rng / RandomState / Generator / SeedSequence);
   * stores through `self.hyperparams[...]` (the constructor's dictionary, possibly the shared mutable default).
+  * state that outlives a call without a visible store: memoising decorators (`lru_cache`, `cache`, ...), mutable class attributes,
+    process-wide setters (`np.seterr`, `warnings.filterwarnings`, `sys.setrecursionlimit`, ...).
 The two `time.time()` reads of Opytimizer.start are whitelisted (their flow is checked by translate/t2_start.py)."""
 import ast
 import os
@@ -19,6 +21,8 @@ MUTATORS = {'append', 'extend', 'insert', 'remove', 'pop', 'clear', 'update', 's
             '__setitem__', '__delitem__'}
 AMBIENT_MODULES = {'random', 'secrets', 'uuid', 'time', 'datetime', 'os', 'sys', 'threading', 'multiprocessing', 'socket', 'getpass', 'platform'}
 AMBIENT_OK_ATTRS = {('sys', 'float_info'), ('os', 'path')}
+PROCESS_STATE_SETTERS = {'seterr', 'seterrcall', 'set_printoptions', 'setbufsize', 'set_string_function', 'filterwarnings', 'simplefilter',
+                         'setrecursionlimit', 'setswitchinterval', 'set_state', 'setlocale', 'basicConfig', 'setdefault_rng'}
 NP_PRIVATE = {'default_rng', 'RandomState', 'Generator', 'SeedSequence', 'PCG64', 'MT19937', 'get_state', 'set_state', 'seed'}
 
 
@@ -65,6 +69,23 @@ def audit_module(repo, rel):
         out.append({'file': rel, 'line': getattr(node, 'lineno', 0), 'what': what,
                     'text': ' '.join((ast.get_source_segment(src, node) or '').split())[:100]})
 
+    # state that outlives a call although no statement "stores" into it
+    for cls in ast.walk(tree):
+        if isinstance(cls, ast.ClassDef):
+            for st in cls.body:
+                tg = st.targets if isinstance(st, ast.Assign) else ([st.target] if isinstance(st, ast.AnnAssign) and st.value is not None else [])
+                val = getattr(st, 'value', None)
+                if tg and isinstance(val, (ast.List, ast.Dict, ast.Set, ast.ListComp, ast.DictComp, ast.SetComp)) or \
+                        (tg and isinstance(val, ast.Call) and isinstance(val.func, (ast.Name, ast.Attribute))
+                         and (val.func.id if isinstance(val.func, ast.Name) else val.func.attr) in ('list', 'dict', 'set', 'defaultdict', 'OrderedDict', 'deque', 'zeros', 'ones', 'empty', 'array')):
+                    rep(st, 'mutable class attribute of %s (one object shared by every instance and every task of the process)' % cls.name)
+    for fn in ast.walk(tree):
+        if isinstance(fn, (ast.FunctionDef, ast.AsyncFunctionDef)):
+            for dec in fn.decorator_list:
+                d = dec.func if isinstance(dec, ast.Call) else dec
+                name = d.id if isinstance(d, ast.Name) else (d.attr if isinstance(d, ast.Attribute) else '')
+                if 'cache' in name.lower() or name in ('memoize', 'memoized', 'singledispatch'):
+                    rep(dec, 'memoising decorator @%s on %s (results, possibly mutable arrays, persist across calls and tasks)' % (name, fn.name))
     for fn in ast.walk(tree):
         if not isinstance(fn, (ast.FunctionDef, ast.AsyncFunctionDef, ast.Lambda)):
             continue
@@ -108,6 +129,8 @@ def audit_module(repo, rel):
                 if isinstance(f, ast.Name) and f.id in ('set', 'frozenset', 'hash', 'id', 'globals', 'vars', 'input', 'open', 'exec', 'eval') \
                         and f.id not in loc:
                     rep(x, 'ambient builtin %s()' % f.id)
+                if isinstance(f, ast.Attribute) and f.attr in PROCESS_STATE_SETTERS:
+                    rep(x, 'process-wide setting changed by %s() (leaks into every later task of the process)' % f.attr)
                 if isinstance(f, ast.Attribute):
                     rn = root_name(f)
                     target = mod_aliases.get(rn, '')
